@@ -5,6 +5,7 @@ import (
 	"fmt"
 	"go/constant"
 	"go/types"
+	"regexp"
 	"strings"
 
 	"golang.org/x/tools/go/ssa"
@@ -493,6 +494,11 @@ func (env *SpecEnv) eval(x SExpr) TV {
 		if n.All {
 			q = "forall"
 		}
+		for _, b := range binders {
+			if strings.HasSuffix(b, " Int)") {
+				body = absoluteIndex(body, b[1:strings.Index(b, " ")])
+			}
+		}
 		return TV{S("(%s (%s) %s)", q, strings.Join(binders, " "), body), boolT}
 	case SCall:
 		return env.call(n)
@@ -814,7 +820,7 @@ func (env *SpecEnv) specCall(sf *SpecFunc, n SCall) TV {
 			benv.vars[p.Name] = args[i]
 		}
 	}
-	body := bterm(benv.eval(sf.Body))
+	body := canonBound(bterm(benv.eval(sf.Body)))
 	key := sf.Name + "|" + strings.Join(pnames, ",") + "|" + body
 	name, ok := e.namedPreds[key]
 	if !ok {
@@ -868,4 +874,91 @@ func (e *Exec) evalClause(x SExpr, env *SpecEnv) (term string, facts []string) {
 	defer func() { e.specHook = saved }()
 	term = env.evalBool(x)
 	return
+}
+
+// absoluteIndex: change of variables for a quantified Int variable v that is used as a slice index. If every
+// occurrence of the shape (+ OFF v) uses the same OFF, substitute v := v - OFF, so that heap reads are indexed by the
+// bare variable (clean triggers, no arithmetic inside function applications). A bijection on Int: semantics-preserving.
+func absoluteIndex(body, v string) string {
+	off := ""
+	i := 0
+	for {
+		j := strings.Index(body[i:], v+")")
+		if j < 0 {
+			break
+		}
+		j += i
+		// find the start of the enclosing "(+ OFF v)"
+		// walk back over one s-expression (OFF) before " v)"
+		k := j - 1
+		if k < 0 || body[k] != ' ' {
+			i = j + len(v)
+			continue
+		}
+		end := k
+		k--
+		depth := 0
+		for k >= 0 {
+			c := body[k]
+			if c == ')' {
+				depth++
+			} else if c == '(' {
+				depth--
+				if depth == 0 {
+					break
+				}
+			} else if c == ' ' && depth == 0 {
+				k++
+				break
+			} else if c == '|' && depth == 0 {
+				// quoted symbol: jump to its opening bar
+				k--
+				for k >= 0 && body[k] != '|' {
+					k--
+				}
+				if depth == 0 {
+					// keep scanning only if preceded by non-space
+				}
+			}
+			k--
+		}
+		if k < 3 {
+			i = j + len(v)
+			continue
+		}
+		cand := body[k:end]
+		if !strings.HasSuffix(body[:k], "(+ ") || strings.Contains(cand, v) {
+			i = j + len(v)
+			continue
+		}
+		if off == "" {
+			off = cand
+		} else if off != cand {
+			return body
+		}
+		i = j + len(v)
+	}
+	if off == "" || off == "0" {
+		return body
+	}
+	const ph = "\x00ABS\x00"
+	out := strings.ReplaceAll(body, "(+ "+off+" "+v+")", ph)
+	out = strings.ReplaceAll(out, v, "(- "+v+" "+off+")")
+	out = strings.ReplaceAll(out, ph, v)
+	return out
+}
+
+var reBoundVar = regexp.MustCompile(`!q\d+\|`)
+
+// canonical names for the bound variables inside a term (alpha-normalisation), so that equal bodies get equal text
+func canonBound(t string) string {
+	m := map[string]string{}
+	return reBoundVar.ReplaceAllStringFunc(t, func(x string) string {
+		if y, ok := m[x]; ok {
+			return y
+		}
+		y := fmt.Sprintf("!c%d|", len(m))
+		m[x] = y
+		return y
+	})
 }
